@@ -365,6 +365,14 @@ def r6_template_reachability(ctx, rule="C02.R6"):
                     note(key, loc, i in live,
                          "the code emitted here (%s: user code, or the raising of a run-time error) can never run: %s, when %s"
                          % (nm, dead_label, conds))
+                elif it.kind == "jump_if_false" and (in_scope or it.iters.get(lid) == 1) and i + 1 < len(tr) \
+                        and tr[i + 1].kind == "label" and tr[i + 1].key() == it.key():
+                    # a conditional jump to the label that follows it: the test has no effect, the
+                    # code after the label runs whether the condition holds or not
+                    note("%s:%s:jump_if_false(%s):not-vacuous" % (rule, it.fn.name, _tmpl(it.name)), loc, False,
+                         "the conditional jump to %s is directly followed by that label: both outcomes of the "
+                         "test continue at the same place (a matching CASE expression falls into the next test "
+                         "instead of entering the block) when %s" % (nm, conds))
                 elif it.kind in ("jump", "jump_if_false") and lid is None and i in live:
                     n = len(labels.get(it.key(), ()))
                     note("%s:%s:%s(%s):emitted-once" % (rule, it.fn.name, it.kind, _tmpl(it.name)), loc,
